@@ -278,6 +278,9 @@ pub fn onechar() -> SweepProfile {
         Node::Esc(EscKind::Word),
         Node::Esc(EscKind::NotDigit),
         ch('b'),
+        // a lone surrogate in the pattern can never match well-formed text, but must not break the loop
+        Node::Char(0xD800),
+        Node::Class { negated: false, items: vec![ClassItem::Single(0xDFFF), ClassItem::Single('a' as u32)] },
     ];
     let mut unary = vec![Unary::Group, Unary::Look(true, false), Unary::Look(true, true)];
     for g in [true, false] {
